@@ -72,13 +72,43 @@ def get_backend(name):
     raise ValueError(name)
 
 
+class _Convertible(object):
+    """a parameter object offering `as_RateExpr()` (third branch of Reaction.rate_expr)"""
+    def __init__(self, k):
+        self.k = k
+
+    def as_RateExpr(self):
+        from chempy.kinetics.rates import MassAction
+        return MassAction([self.k])
+
+
+def mk_param(spec, num):
+    """`pform`: 'plain' (default) number | 'massaction' MassAction([k]) | 'convertible' object with as_RateExpr() |
+    'key' the string spec['pkey'] (rate constant = variables[pkey]) | 'other' a RateExpr that is no MassAction"""
+    form = spec.get('pform', 'plain')
+    if form == 'key':
+        return spec['pkey']
+    k = to_num(spec['param'], num)
+    if form == 'plain':
+        return k
+    if form == 'massaction':
+        from chempy.kinetics.rates import MassAction
+        return MassAction([k])
+    if form == 'convertible':
+        return _Convertible(k)
+    if form == 'other':
+        from chempy.kinetics.rates import RateExpr
+        return RateExpr([k])
+    raise ValueError(form)
+
+
 def mk_reaction(spec, num):
     """spec: {'reac': [[k, n], ...], 'prod', 'inact_reac', 'inact_prod', 'param', 'ordered': bool}
     ordered=True passes OrderedDicts (insertion order kept), False passes plain dicts (chempy sorts them)."""
     from chempy import Reaction
     mk = OrderedDict if spec.get('ordered', True) else dict
     return Reaction(mk((k, v) for k, v in spec['reac']), mk((k, v) for k, v in spec['prod']),
-                    to_num(spec['param'], num),
+                    mk_param(spec, num),
                     inact_reac=mk((k, v) for k, v in spec['inact_reac']),
                     inact_prod=mk((k, v) for k, v in spec['inact_prod']), checks=())
 
@@ -88,7 +118,9 @@ def readback(rxn, spec):
     return {'reac': [[k, int(v)] for k, v in rxn.reac.items()], 'prod': [[k, int(v)] for k, v in rxn.prod.items()],
             'inact_reac': [[k, int(v)] for k, v in rxn.inact_reac.items()],
             'inact_prod': [[k, int(v)] for k, v in rxn.inact_prod.items()],
-            'param': spec['param'], 'ordered': True}
+            'param': spec['param'], 'ordered': True,
+            **({'param_key': spec['pkey'], 'pform': 'key', 'pkey': spec['pkey']} if spec.get('pform') == 'key' else
+               ({'pform': spec['pform']} if spec.get('pform') else {}))}
 
 
 def net_of(spec, s):
@@ -108,7 +140,7 @@ def spec_keys(spec):
 
 def rate_of(spec, conc):
     """k * prod_{(j, nu) in reac} c_j ** nu with Fractions (conc: dict name -> Fraction)"""
-    r = frac(spec['param'])
+    r = conc[spec['pkey']] if spec.get('pform') == 'key' else frac(spec['param'])
     for k, v in spec['reac']:
         r *= conc[k] ** v
     return r
